@@ -24,6 +24,27 @@ ASSUMPTIONS = ["finite forecasts and observations (an infinite forecast makes fc
                "all forecast sources passed to murphy_thetas have the same shape (see notes/C11.md)",
                "dyadic inputs so float + - * and comparisons are exact; means compared to 1e-9",
                "equal coordinate label sets on fcst and obs (any stored order)"]
+MANIFEST = dict(
+    level="proof",
+    text="Kernel-checked Lean theorems about the three elementary-score kernels and the combine block of murphy_score, "
+         "regenerated from murphy_impl.py on every run: for all finite forecasts, observations, thetas, alpha and Huber "
+         "parameter the total/underforecast/overforecast outputs equal the Ehm et al. / Taggart elementary scores (over-forecast "
+         "part exactly on obs <= theta < fcst, under-forecast part on fcst <= theta < obs, never both, total = sum, zero outside "
+         "the data range, NaN in any input gives NaN); the curve is constant (quantile) / affine (expectile, Huber) between "
+         "kinks for single cases and sums over any number of cases; the model of murphy_thetas returns exactly the sorted kink "
+         "set (forecast values of every source, left-limit points, obs, obs +- a) so the values at the thetas determine the "
+         "curve; the integral over theta (step integral, and midpoint rule on any kink-complete grid) is the pinball / half "
+         "asymmetric squared / Huber loss.",
+    note="Trusted: Lean kernel; py2lean translator; SV.Fl (IEEE minus rounding/overflow/signed zero); hand model of "
+         "broadcast_and_match_nan, mean(skipna), np.unique/concatenate and the functional dispatch (tied by differential "
+         "correspondence only); step / midpoint-rule calculus as the meaning of the integral (no Mathlib measure-theory bridge). "
+         "Not proved in Lean: the mean over cases with NaN removal equals the mean of the elementary scores over valid cases "
+         "(compared per run by the harness against the exact Spec). Not generated: infinite forecasts (fcst*0.0 is NaN: the "
+         "quantile/Huber score of an infinite forecast is 0, notes/C11.md N1) and forecast sources of different shapes in "
+         "murphy_thetas (huber/expectile raise, N2); different coordinate label sets on fcst and obs.",
+    technique="Lean 4 theorems over translator-regenerated kernels + hand model of the frame; differential correspondence; "
+              "exact-rational Spec oracle and relational oracles (constancy/affinity between thetas, midpoint integral = loss)",
+    design="6/C11")
 RULE = ("2-D (a x b) forecast/obs arrays of dyadic values from a small pool (40-60 % of obs copied from fcst), NaN per slot, "
         "thetas drawn from the fcst/obs values, obs +- a, midpoints and NaN, as list / 1-D / 2-D DataArray, obs coordinates "
         "shuffled; distinct = canonical input hash; non-trivial = some finite output and at least one theta inside a data range")
